@@ -74,7 +74,7 @@ func (cb *CellBuffer) SetContent(x int, y int,
 		c.currComb = append([]rune{}, combc...)
 
 		if c.currMain != mainc {
-			c.width = runewidth.RuneWidth(mainc)
+			c.width = runeWidth(mainc)
 		}
 		c.currMain = mainc
 		if style.fg == ColorNone {
@@ -233,7 +233,7 @@ func (cb *CellBuffer) Fill(r rune, style Style) {
 	if r == rune(0) {
 		r = ' ' // as in SetContent
 	}
-	width := runewidth.RuneWidth(r)
+	width := runeWidth(r)
 	if width > 1 {
 		width = 1
 	}
@@ -260,6 +260,18 @@ func (cb *CellBuffer) Fill(r rune, style Style) {
 		c.currStyle = cs
 		c.width = width
 	}
+}
+
+// runeWidth is the number of columns a rune occupies.  The tables of
+// go-runewidth lack the word joiner, the invisible operators and the bidi
+// isolate controls (U+2060..U+2069); like the other format and bidi controls
+// they occupy no column, so that GetContent presents them as blanks instead of
+// passing them to the terminal.
+func runeWidth(r rune) int {
+	if r >= 0x2060 && r <= 0x2069 {
+		return 0
+	}
+	return runewidth.RuneWidth(r)
 }
 
 var runeConfig *runewidth.Condition
